@@ -34,12 +34,26 @@ package httpserver
 //	C11.tc.update-never-applied         HTTPServer update not processed by its runtime
 //	C11.tc.kind-change-broken-pipeline  503 for an existing pipeline after an update that kept the name of its filter "m" and changed its kind (Mock / ResponseAdaptor / RateLimiter by version)
 //
+// NEIGHBOUR OF ANOTHER KIND (c11MQSc, half of the scenarios): a real MQTTProxy
+// "mq" is a traffic gate of the same namespace (broker on the simulated network,
+// optional Connect pipeline "mqauth" that parks, so that a client stays inside
+// its handshake); a fourth updater applies / updates / deletes it (update =
+// MQTTProxy.Inherit = close the old broker + start a new one) while the HTTP
+// requests above run and raw MQTT clients CONNECT / SUBSCRIBE / PUBLISH / PING.
+//
+//	C11.process-crash                         (reported by vcheck) a goroutine of the code under test panicked and ended the process,
+//	                                          e.g. Broker.handleConn registering a client after Broker.close set clients = nil
+//	C11.neighbour.mqtt-unavailable            mq exists, no call on it overlapped, yet dial / CONNECT failed
+//	C11.neighbour.mqtt-client-disconnected    mq exists, no call on it overlapped this connection, yet SUBSCRIBE / PUBLISH / PINGREQ got no answer
+//	(the HTTP side is judged by the unchanged classes above: calls on mq never touch the reference of g, pa, pb, pc)
+//
 // Leniency: "applied" for the gate = the runtime's fsm has stored the new mux
 // instance (polled by the updater); creating an existing pipeline through
 // CreatePipeline is not generated (the API layer refuses it); the traffic gate
 // g is never deleted (requests need an entry point), the bystander g2 is.
 
 import (
+	stdcontext "context"
 	"encoding/json"
 	"fmt"
 	"net"
@@ -50,14 +64,18 @@ import (
 	"sync"
 	"time"
 
+	"github.com/eclipse/paho.mqtt.golang/packets"
 	"github.com/megaease/grace/gracenet"
 
+	"github.com/megaease/easegress/pkg/api"
 	"github.com/megaease/easegress/pkg/context"
+	_ "github.com/megaease/easegress/pkg/object/mqttproxy"
 	"github.com/megaease/easegress/pkg/object/pipeline"
 	"github.com/megaease/easegress/pkg/object/trafficcontroller"
 	"github.com/megaease/easegress/pkg/protocols/httpprot/httpstat"
 	"github.com/megaease/easegress/pkg/supervisor"
 	"verif/simkit/sim"
+	"verif/simkit/simnet"
 )
 
 type c11TCOp struct {
@@ -77,7 +95,80 @@ type c11TCInit struct {
 	V    int    `json:"v"`
 }
 
+// c11MQStep is one step of a raw MQTT client of the neighbour MQTTProxy.
+type c11MQStep struct {
+	Op    string `json:"op"` // connect | sub | pub | ping | disc
+	GapUs int64  `json:"gap_us,omitempty"`
+}
+
+type c11MQClient struct {
+	Steps []c11MQStep `json:"steps"`
+	Clean bool        `json:"clean,omitempty"`
+}
+
+// c11MQSc: a traffic gate of ANOTHER kind lives next to the HTTP objects: a real
+// MQTTProxy "mq" (real broker, listening on the simulated network) in the same
+// TrafficController namespace; a fourth updater applies / updates (close old +
+// init new) / deletes it while HTTP traffic flows and while raw MQTT clients
+// CONNECT / SUBSCRIBE / PUBLISH / PING at scheduler-chosen instants.
+type c11MQSc struct {
+	InitialV int           `json:"initial_v"` // version the MQTTProxy exists with before the run (-1: absent)
+	AuthHold int           `json:"auth_hold"` // gates the Connect pipeline of the broker parks at (keeps a client inside its handshake)
+	Clients  []c11MQClient `json:"clients"`
+}
+
+const c11NMQV = 6
+
+func c11MQText(v int) string {
+	m := c11M{"kind": "MQTTProxy", "name": "mq", "port": 1883, "topicCacheSize": 100 + v%3, "maxAllowedConnection": []int{0, 5, 100}[v%3]}
+	if v%2 == 1 {
+		m["rules"] = []c11M{{"when": c11M{"packetType": "Connect"}, "pipeline": "mqauth"}}
+	}
+	b, _ := json.Marshal(m)
+	return string(b)
+}
+
+func c11GenMQ(rng *sim.Rand, sc *c11TCSc) {
+	mq := &c11MQSc{InitialV: -1, AuthHold: rng.Pick(0, 1, 3, 6)}
+	exists := false
+	if rng.Bool(0.75) {
+		mq.InitialV, exists = rng.Intn(c11NMQV), true
+	}
+	for len(sc.Updaters) < 4 {
+		sc.Updaters = append(sc.Updaters, c11TCUpdater{})
+	}
+	for i, n := 0, rng.Range(1, 5); i < n; i++ {
+		op := c11TCOp{Name: "mq", GapUs: int64(rng.Pick(0, 0, 1, 10, 100, 1000, 5000)), V: rng.Intn(c11NMQV)}
+		switch x := rng.Intn(10); {
+		case exists && x < 3:
+			op.Op, exists = "deletegate", false
+		case x < 5:
+			op.Op = "updategate" // an error if mq does not exist
+			op.Same = exists && rng.Bool(0.2)
+		default:
+			op.Op = "applygate"
+			op.Same = exists && rng.Bool(0.2)
+			exists = true
+		}
+		sc.Updaters[3].Ops = append(sc.Updaters[3].Ops, op)
+	}
+	for c, nc := 0, rng.Range(1, 2); c < nc; c++ {
+		cl := c11MQClient{Clean: rng.Bool(0.7)}
+		for i, n := 0, rng.Range(2, 8); i < n; i++ {
+			st := c11MQStep{GapUs: int64(rng.Pick(0, 0, 1, 10, 100, 1000, 3000))}
+			st.Op = rng.PickStr("connect", "connect", "sub", "pub", "pub", "ping", "disc")
+			if i == 0 {
+				st.Op = "connect"
+			}
+			cl.Steps = append(cl.Steps, st)
+		}
+		mq.Clients = append(mq.Clients, cl)
+	}
+	sc.MQ = mq
+}
+
 type c11TCSc struct {
+	MQ       *c11MQSc       `json:"mq,omitempty"`
 	Initial  []c11TCInit    `json:"initial"`
 	GateV    int            `json:"gate_v"`
 	Updaters []c11TCUpdater `json:"updaters"`
@@ -86,7 +177,7 @@ type c11TCSc struct {
 
 const c11NGateV = 4
 
-var c11Owner = map[string]int{"pa": 0, "g": 0, "pb": 1, "pc": 1, "g2": 1, "o/pa": 2, "o/pb": 2, "o/*": 2, "tc": 2}
+var c11Owner = map[string]int{"pa": 0, "g": 0, "pb": 1, "pc": 1, "g2": 1, "o/pa": 2, "o/pb": 2, "o/*": 2, "tc": 2, "mq": 3}
 
 // c11OtherNS: a second namespace with pipelines of the SAME names as the ones
 // requests are routed to; whatever happens there (create / apply / update /
@@ -203,6 +294,9 @@ func c11GenTC(rng *sim.Rand) *c11TCSc {
 			u.Ops = append(u.Ops, op)
 		}
 		sc.Updaters = append(sc.Updaters, u)
+	}
+	if rng.Bool(0.5) {
+		c11GenMQ(rng, sc)
 	}
 	pHold := []float64{0.3, 0.6, 0.9}[rng.Intn(3)]
 	sc.Clients = c11GenReqs(rng, rng.Range(1, 3), rng.Range(4, 18), pHold, false)
@@ -339,7 +433,10 @@ func c11ExecTC(r *sim.Run, sc *c11TCSc) {
 	for _, c := range sc.Clients {
 		nreq += len(c.Reqs)
 	}
-	if nreq == 0 || sc.GateV < 0 || sc.GateV >= c11NGateV || len(sc.Updaters) > 3 {
+	if nreq == 0 || sc.GateV < 0 || sc.GateV >= c11NGateV || len(sc.Updaters) > 4 {
+		return
+	}
+	if sc.MQ != nil && (sc.MQ.InitialV < -1 || sc.MQ.InitialV >= c11NMQV || len(sc.MQ.Clients) > 4) {
 		return
 	}
 	pipeNames := map[string]bool{"pa": true, "pb": true, "pc": true}
@@ -355,7 +452,10 @@ func c11ExecTC(r *sim.Run, sc *c11TCSc) {
 			if o, ok := c11Owner[op.Name]; !ok || o != u || op.V < 0 || op.V > 1000 {
 				return
 			}
-			isGate := op.Name == "g" || op.Name == "g2"
+			isGate := op.Name == "g" || op.Name == "g2" || op.Name == "mq"
+			if op.Name == "mq" && (sc.MQ == nil || op.V >= c11NMQV) {
+				return
+			}
 			switch op.Op {
 			case "status":
 				if op.Name != "tc" {
@@ -374,7 +474,7 @@ func c11ExecTC(r *sim.Run, sc *c11TCSc) {
 					return
 				}
 			case "deletegate":
-				if op.Name != "g2" {
+				if op.Name != "g2" && op.Name != "mq" {
 					return
 				}
 			default:
@@ -387,6 +487,7 @@ func c11ExecTC(r *sim.Run, sc *c11TCSc) {
 	c11Cur = hooks
 	defer func() { c11Cur = nil }()
 	var listeners []*c11Listener
+	var nn *simnet.Net // network of the neighbour MQTTProxy
 	gracenet.ListenHook = func(network, addr string) (net.Listener, error) {
 		l := &c11Listener{ch: make(chan struct{})}
 		listeners = append(listeners, l)
@@ -525,7 +626,7 @@ func c11ExecTC(r *sim.Run, sc *c11TCSc) {
 	const ns = "default"
 	var runtimes []*runtime
 	ref := map[string]*c11RefObj{}
-	for _, n := range []string{"pa", "pb", "pc", "g", "g2", "o/pa", "o/pb"} {
+	for _, n := range []string{"pa", "pb", "pc", "g", "g2", "o/pa", "o/pb", "mq"} {
 		ref[n] = &c11RefObj{hist: []c11RefState{{}}}
 	}
 	lastEnt := map[string]*supervisor.ObjectEntity{}
@@ -576,6 +677,9 @@ func c11ExecTC(r *sim.Run, sc *c11TCSc) {
 			l.Close()
 		}
 		time.Sleep(checkFailedTimeout + time.Second)
+		if nn != nil {
+			nn.Shutdown()
+		}
 	}
 	if !waitApplied(gsp) {
 		fail("C11.tc.update-never-applied", "initial HTTPServer spec not loaded by its runtime")
@@ -584,6 +688,61 @@ func c11ExecTC(r *sim.Run, sc *c11TCSc) {
 	}
 	ref["g"].hist[0] = c11RefState{exists: true, v: sc.GateV}
 	var mapperNS context.MuxMapper = rt.mux.inst.Load().(*muxInstance).muxMapper
+
+	// the neighbour of another kind: MQTTProxy "mq" on the simulated network
+	type touch struct{ start, end uint64 }
+	var mqTouches []*touch // every call on mq that may close / restart its broker
+	mqUntouched := func(t0, t1 uint64) bool {
+		for _, t := range mqTouches {
+			if t.start <= t1 && (t.end == 0 || t.end >= t0) {
+				return false
+			}
+		}
+		return true
+	}
+	if sc.MQ != nil {
+		nn = simnet.New()
+		simnet.SetDefault(nn)
+		defer simnet.SetDefault(nil)
+		api.C11DrainAPIChanges()
+		hold := sc.MQ.AuthHold
+		if hold < 0 || hold > 8 {
+			hold = 0
+		}
+		hooks.mqPark = func() {
+			r.Probe("c11.nb.mqtt_connect_passes_auth_pipeline")
+			for i := 0; i < hold && !r.Aborted(); i++ {
+				r.Yield("c11.mq.auth")
+			}
+		}
+		asp := newSpec(`{"name":"mqauth","kind":"Pipeline","filters":[{"name":"park","kind":"C11Park","gen":0,"role":"mq","tag":"mqauth"}]}`)
+		if asp == nil {
+			cleanup()
+			return
+		}
+		if _, err := tc.CreatePipelineForSpec(ns, asp); err != nil {
+			r.Probe("c11.nb.auth_pipeline_not_created")
+			cleanup()
+			return
+		}
+		if v := sc.MQ.InitialV; v >= 0 {
+			text := c11MQText(v)
+			sp := newSpec(text)
+			if sp == nil {
+				cleanup()
+				return
+			}
+			ent, err := tc.ApplyTrafficGateForSpec(ns, sp)
+			api.C11DrainAPIChanges()
+			if err != nil || ent == nil {
+				r.Probe("c11.nb.mqttproxy_not_created")
+				cleanup()
+				return
+			}
+			ref["mq"].hist[0] = c11RefState{exists: true, v: v}
+			lastEnt["mq"], lastText["mq"] = ent, text
+		}
+	}
 
 	for _, in := range sc.Initial {
 		text := c11TCPipeText(in.Name, in.V)
@@ -684,7 +843,7 @@ func c11ExecTC(r *sim.Run, sc *c11TCSc) {
 				}
 				o := ref[op.Name]
 				cur := o.cur()
-				isGate := op.Name == "g" || op.Name == "g2"
+				isGate := op.Name == "g" || op.Name == "g2" || op.Name == "mq"
 				opNS, objName, tag := ns, op.Name, op.Name
 				if strings.HasPrefix(op.Name, "o/") {
 					opNS, objName = c11OtherNS, strings.TrimPrefix(op.Name, "o/")
@@ -706,6 +865,8 @@ func c11ExecTC(r *sim.Run, sc *c11TCSc) {
 					text = c11GateText("g", 10080, op.V)
 				case op.Name == "g2":
 					text = c11GateText("g2", 10081, op.V)
+				case op.Name == "mq":
+					text = c11MQText(op.V)
 				default:
 					text = c11TCPipeTextTag(objName, tag, op.V)
 				}
@@ -754,6 +915,13 @@ func c11ExecTC(r *sim.Run, sc *c11TCSc) {
 					o.hist = append(o.hist, next)
 				}
 				r.Eventf("u%d %s %s v%d same=%v starts (ref: exists=%v v%d)", u, op.Op, op.Name, op.V, same, cur.exists, cur.v)
+				var tch *touch
+				if op.Name == "mq" && !(same && op.Op == "applygate") {
+					// everything but an apply of an equal spec may close / restart the broker
+					tch = &touch{start: r.Seq()}
+					mqTouches = append(mqTouches, tch)
+					r.Probe("c11.nb.lifecycle_call_on_mqttproxy/" + op.Op)
+				}
 				var ent *supervisor.ObjectEntity
 				var err error
 				var pv interface{}
@@ -782,6 +950,12 @@ func c11ExecTC(r *sim.Run, sc *c11TCSc) {
 						err = tc.DeleteTrafficGate(ns, op.Name)
 					}
 				}()
+				if op.Name == "mq" {
+					api.C11DrainAPIChanges()
+				}
+				if tch != nil {
+					tch.end = r.Seq()
+				}
 				if pv != nil {
 					fail("C11.tc.panic", "%s %s panicked: %v\n%s", op.Op, op.Name, pv, st)
 					return
@@ -803,10 +977,20 @@ func c11ExecTC(r *sim.Run, sc *c11TCSc) {
 					}
 				}
 				// gate g: the update is applied once the runtime has stored the new instance
-				if op.Name == "g" && (changed || (op.Op == "updategate" && err == nil)) {
+				if op.Name == "g" && changed {
 					if !waitApplied(sp) {
-						fail("C11.tc.update-never-applied", "ApplyTrafficGate(g, version %d) returned, but the runtime never loaded the spec", op.V)
+						fail("C11.tc.update-never-applied", "%s(g, version %d) returned, but the runtime never loaded the spec", op.Op, op.V)
 						return
+					}
+				} else if op.Name == "g" && op.Op == "updategate" && err == nil {
+					// UpdateTrafficGate with a spec equal to the one in effect: the statement only
+					// says that applying an unchanged spec is a no-op, so the runtime may reload
+					// it or not. If it does, let the reload finish before the next call (a later
+					// identical apply must not see this reload as its own).
+					if waitApplied(sp) && rt.mux.inst.Load().(*muxInstance).superSpec == sp {
+						r.Probe("c11.tc.update_with_equal_spec_reloaded")
+					} else {
+						r.Probe("c11.tc.update_with_equal_spec_not_reloaded")
 					}
 				}
 				if changed {
@@ -1008,6 +1192,196 @@ func c11ExecTC(r *sim.Run, sc *c11TCSc) {
 				return
 			}
 		})
+	}
+	if sc.MQ != nil {
+		for ci := range sc.MQ.Clients {
+			ci := ci
+			cl := sc.MQ.Clients[ci]
+			r.Go(fmt.Sprintf("mqtt%d", ci), func() {
+				// every connection uses a client id of its own: reconnecting with the same id
+				// right after a close is C16's business (known finding
+				// C16.reconnect.killed-by-own-delete-event), not this property's
+				cid, nconn := fmt.Sprintf("m%d", ci), 0
+				var conn net.Conn
+				var t0 uint64 // stamp taken before the dial of the current connection
+				mid := uint16(0)
+				drop := func() {
+					if conn != nil {
+						conn.Close()
+						conn = nil
+					}
+				}
+				defer drop()
+				// judge decides what a failed step means: with the MQTTProxy existing and no
+				// lifecycle call on it since the connection was begun it is a violation
+				judge := func(phase, what string, err error) bool {
+					t1 := r.Seq()
+					drop()
+					st := ref["mq"].cur()
+					if st.exists && mqUntouched(t0, t1) {
+						class := "C11.neighbour.mqtt-client-disconnected"
+						if phase == "connect" {
+							class = "C11.neighbour.mqtt-unavailable"
+						}
+						fail(class, "MQTT client %s: %s failed: %v; MQTTProxy mq exists (version %d) and no create/update/delete of it overlapped this connection (stamps %d..%d, calls on mq: %d); "+
+							"calls on the HTTP objects of the same TrafficController must not disturb it", cid, what, err, st.v, t0, t1, len(mqTouches))
+						return false
+					}
+					r.Probe("c11.nb.mqtt_" + phase + "_failed_while_mqttproxy_absent_or_touched")
+					return true
+				}
+				// expect reads until a packet of the wanted type arrives; deliveries are acknowledged on the way
+				expect := func(want byte) (packets.ControlPacket, error) {
+					for i := 0; i < 64; i++ {
+						p, err := packets.ReadPacket(conn)
+						if err != nil {
+							return nil, err
+						}
+						if pub, ok := p.(*packets.PublishPacket); ok && want != packets.Publish {
+							r.Probe("c11.nb.mqtt_delivery_received")
+							if pub.Qos == 1 {
+								ack := packets.NewControlPacket(packets.Puback).(*packets.PubackPacket)
+								ack.MessageID = pub.MessageID
+								if err := ack.Write(conn); err != nil {
+									return nil, err
+								}
+							}
+							continue
+						}
+						switch p.(type) {
+						case *packets.ConnackPacket:
+							if want == packets.Connack {
+								return p, nil
+							}
+						case *packets.SubackPacket:
+							if want == packets.Suback {
+								return p, nil
+							}
+						case *packets.PubackPacket:
+							if want == packets.Puback {
+								return p, nil
+							}
+						case *packets.PingrespPacket:
+							if want == packets.Pingresp {
+								return p, nil
+							}
+						}
+					}
+					return nil, fmt.Errorf("no packet of type %d among 64 packets", want)
+				}
+				for si := range cl.Steps {
+					if r.Aborted() || r.Violated() {
+						return
+					}
+					st := cl.Steps[si]
+					gap := st.GapUs
+					if gap < 0 || gap > 10_000_000 {
+						gap = 0
+					}
+					r.Sleep(time.Duration(gap) * time.Microsecond)
+					if st.Op != "connect" && conn == nil {
+						continue
+					}
+					switch st.Op {
+					case "connect":
+						drop()
+						nconn++
+						cid = fmt.Sprintf("m%d-%d", ci, nconn)
+						t0 = r.Seq()
+						existed := ref["mq"].cur().exists
+						c, err := nn.Dial(stdcontext.Background(), "tcp", "mq.test:1883")
+						if err != nil {
+							if !judge("connect", "dial", err) {
+								return
+							}
+							continue
+						}
+						conn = c
+						conn.SetDeadline(time.Now().Add(24 * time.Hour))
+						cp := packets.NewControlPacket(packets.Connect).(*packets.ConnectPacket)
+						cp.ClientIdentifier, cp.CleanSession, cp.Keepalive = cid, cl.Clean, 0
+						cp.ProtocolName, cp.ProtocolVersion = "MQTT", 4
+						r.Eventf("%s CONNECT (mq existed: %v)", cid, existed)
+						err = cp.Write(conn)
+						var p packets.ControlPacket
+						if err == nil {
+							p, err = expect(packets.Connack)
+						}
+						if err == nil && p.(*packets.ConnackPacket).ReturnCode != packets.Accepted {
+							err = fmt.Errorf("CONNACK return code %d", p.(*packets.ConnackPacket).ReturnCode)
+						}
+						if err != nil {
+							if !judge("connect", "CONNECT", err) {
+								return
+							}
+							continue
+						}
+						r.Probe("c11.nb.mqtt_connected")
+						if len(mqTouches) > 0 {
+							r.Probe("c11.nb.mqtt_connected_after_lifecycle_call")
+						}
+					case "sub":
+						mid++
+						sp := packets.NewControlPacket(packets.Subscribe).(*packets.SubscribePacket)
+						sp.MessageID, sp.Topics, sp.Qoss = mid, []string{"t/" + cid}, []byte{1}
+						err := sp.Write(conn)
+						if err == nil {
+							_, err = expect(packets.Suback)
+						}
+						if err != nil {
+							if !judge("session", "SUBSCRIBE", err) {
+								return
+							}
+							continue
+						}
+						r.Probe("c11.nb.mqtt_subscribed")
+					case "pub":
+						mid++
+						pp := packets.NewControlPacket(packets.Publish).(*packets.PublishPacket)
+						pp.MessageID, pp.TopicName, pp.Qos, pp.Payload = mid, "t/"+cid, 1, []byte("x")
+						err := pp.Write(conn)
+						if err == nil {
+							_, err = expect(packets.Puback)
+						}
+						if err != nil {
+							if !judge("session", "PUBLISH", err) {
+								return
+							}
+							continue
+						}
+						r.Probe("c11.nb.mqtt_published")
+					case "ping":
+						err := packets.NewControlPacket(packets.Pingreq).Write(conn)
+						if err == nil {
+							_, err = expect(packets.Pingresp)
+						}
+						if err != nil {
+							if !judge("session", "PINGREQ", err) {
+								return
+							}
+							continue
+						}
+						r.Probe("c11.nb.mqtt_ping_answered")
+						if opsDone > 0 {
+							r.Probe("c11.nb.mqtt_connection_alive_after_calls_on_other_objects")
+						}
+					case "disc":
+						packets.NewControlPacket(packets.Disconnect).Write(conn)
+						drop()
+					}
+				}
+				// a connection that is still open must still be served at the end of the client's script
+				if conn != nil {
+					err := packets.NewControlPacket(packets.Pingreq).Write(conn)
+					if err == nil {
+						_, err = expect(packets.Pingresp)
+					}
+					if err != nil {
+						judge("session", "final PINGREQ", err)
+					}
+				}
+			})
+		}
 	}
 	r.WaitTasks()
 	if !r.Violated() && !r.Aborted() {
